@@ -12,7 +12,7 @@ from glue.core.util import split_component_view
 from glue.core.registry import Registry
 from glue.core.exceptions import IncompatibleAttribute
 from glue.core.message import SubsetDeleteMessage, SubsetUpdateMessage
-from glue.core.decorators import memoize
+from glue.core.decorators import memoize, clear_cache
 from glue.core.visual import VisualAttributes
 from glue.config import settings
 from glue.utils import (categorical_ndarray, combine_slices, floodfill, iterate_chunks,
@@ -1123,6 +1123,7 @@ class CompositeSubsetState(SubsetState):
                 mt_args = args
             self.state2.move_to(*mt_args)
         self.state1.move_to(*args)
+        clear_cache(self.to_mask)
 
     @property
     def attributes(self):
